@@ -165,6 +165,20 @@ func specialReplay(in io.Reader, raw bool, args []string) (*Summary, error) {
 						}
 					}
 				}
+				// small x between the grid's 1e-6 and the end point (a window where a series or a shortcut may take over)
+				for _, xx := range []float64{3e-7, 1e-8, 3e-10, 9.9e-11, 5e-11, math.Ldexp(1, -34), math.Ldexp(1, -35), 1e-11, 1e-13} {
+					sum.Checks++
+					got, want := mathx.BetaInc(xx, a, b), mathext.RegIncBeta(a, b, xx)
+					if !closeF(got, want, 1e-9, 0) {
+						sum.viol("BetaInc-accuracy", c, "BetaInc(%v,%v,%v)=%.15g, independent value %.15g (small x)", xx, a, b, got, want)
+					}
+					// the reflection identity only where 1-x is exact (the float 1-x of a decimal x is another point)
+					if 1-(1-xx) == xx {
+						if s := got + mathx.BetaInc(1-xx, b, a); math.Abs(s-1) > 1e-9 {
+							sum.viol("BetaInc-symmetry", c, "BetaInc(%v,%v,%v)+BetaInc(1-x,b,a)=%.15g", xx, a, b, s)
+						}
+					}
+				}
 				// x within a float spacing of 0 and of 1, down to the smallest floats, where closed forms exist:
 				// I_x(a, 1) = x^a and I_x(1, b) = 1 - (1 - x)^b
 				if a == 1 || b == 1 {
